@@ -183,7 +183,7 @@ def clear_inverse_atoms(ctx, p):
 
 
 def prove_zero(ctx, name, x, rounds=2, max_deg=8, max_inst=6000, key=None,
-               fallback_exact=True, clear_denominators=True):
+               fallback_exact=True, clear_denominators=True, lemma=False):
     """Obligation: every entry of x is zero (normal form, then LRA
     abstraction, then exact z3)."""
     polys = flatten_polys(x)
@@ -194,6 +194,9 @@ def prove_zero(ctx, name, x, rounds=2, max_deg=8, max_inst=6000, key=None,
     lp = LinProver(ctx)
     r, dt = lp.prove_zero(nz, rounds, max_deg, max_inst)
     if r == 'unsat':
+        if lemma:   # proved from the hypotheses: may be used as one
+            for p in nz:
+                ctx.hyps.append(('lemma:' + name, p))
         return ctx.record(name, 'unsat', 'lra-abstraction', key=key,
                           instances=lp.instances)
     if clear_denominators:
